@@ -84,6 +84,7 @@ Proof.
   - constructor.
   - intros i val [].
   - constructor.
+  - intros i val [].
   - reflexivity.
 Qed.
 
@@ -132,4 +133,31 @@ Proof.
   - intros i v IN. apply (i_deliv _ I i v IN).
   - apply (i_dnd _ I).
   - apply (i_pnd _ I).
+Qed.
+
+(* conservation at quiescence: what was pushed has been delivered or is still in its slot *)
+Theorem bq_conservation : forall k progs s, usage_ok k progs = true -> Reach k progs s -> all_done s = true ->
+  forall i v, In (i, v) (pushed s) -> In (i, v) (delivered s) \/ pay (get_slot s (Z.to_nat (i mod 2 ^ Z.of_nat k))) = Some v.
+Proof.
+  intros k progs s U R AD i v IN. destruct (FInv_reach _ _ _ U R) as (I & _ & KB).
+  assert (NV : forall u vu, ~ thv s u vu).
+  { intros u vu (thu & H1 & H2). unfold all_done in AD. rewrite forallb_forall in AD. specialize (AD thu (nth_error_In _ _ H1)).
+    unfold thread_done in AD. unfold tv, cur in H2. destruct (nth_error (prog thu) (opi thu)); discriminate. }
+  assert (SE : get_slot s (Z.to_nat (i mod 2 ^ Z.of_nat k)) = sslot s i) by (unfold get_slot, sslot, tsl, C; rewrite KB; reflexivity).
+  rewrite SE. destruct (i_pushed _ I i v IN) as [Hi [LT|(u & vu & H & _)]]; [|destruct (NV _ _ H)].
+  destruct (Z_lt_le_dec (xver (C s) false i) (ver (sslot s i))) as [LT0|GE].
+  - left. apply (i_cons _ I i v IN LT0).
+  - right. assert (EV : ver (sslot s i) = xver (C s) false i) by (unfold xver in *; lia).
+    destruct (i_slot _ I i Hi) as [A B]. destruct (own (sslot s i)) as [u|] eqn:OU.
+    + destruct (B u eq_refl) as (vu & i' & H & _). destruct (NV _ _ H).
+    + destruct (A eq_refl) as [_ A2]. destruct (A2 EV) as (val & PV & INV). rewrite (nodup_fst_fun _ _ _ _ (i_pnd _ I) IN INV). exact PV.
+Qed.
+
+Theorem bq_exactly_once_full : forall k progs s, usage_ok k progs = true -> Reach k progs s ->
+  (forall i v, In (i, v) (delivered s) -> In (i, v) (pushed s)) /\ NoDup (map fst (delivered s)) /\ NoDup (map fst (pushed s)) /\
+  (all_done s = true -> forall i v, In (i, v) (pushed s) -> In (i, v) (delivered s) \/
+     pay (get_slot s (Z.to_nat (i mod 2 ^ Z.of_nat k))) = Some v).
+Proof.
+  intros k progs s U R. destruct (bq_exactly_once k progs s U R) as (A & B & D). repeat split; auto.
+  intros AD i v IN. eapply bq_conservation; eauto.
 Qed.
